@@ -486,3 +486,10 @@ package cdcn
 //@ assume func utf8.DecodeRuneInString
 //@   nopanic
 //@   ensures result.0 == drune($1)
+//@ func (*parser_).checkLiteral
+//@   props C11 C12
+//@   safe
+//@   requires token != nil
+//@   assumes 1 <= tline(token) && tline(token) <= nlines(this.source_)
+//@   ensures err == nil
+//@   xensures err != nil
